@@ -201,6 +201,7 @@ func (a *archetype) Set(index uint32, id ID, comp interface{}) unsafe.Pointer {
 	if size == 0 {
 		return dst
 	}
+	escapes(comp)
 	rValue := reflect.ValueOf(comp)
 
 	src := rValue.UnsafePointer()
